@@ -244,11 +244,12 @@ impl WTClient {
     /// Adds a pending appointment to the tower record.
     pub fn add_pending_appointment(&mut self, tower_id: TowerId, appointment: &Appointment) {
         if let Some(tower) = self.towers.get_mut(&tower_id) {
-            tower.pending_appointments.insert(appointment.locator);
-
-            self.dbm
-                .store_pending_appointment(tower_id, appointment)
-                .unwrap();
+            // The same revocation may be notified more than once. The appointment is only stored the first time.
+            if tower.pending_appointments.insert(appointment.locator) {
+                self.dbm
+                    .store_pending_appointment(tower_id, appointment)
+                    .unwrap();
+            }
         } else {
             log::error!("Cannot add pending appointment to tower. Unknown tower_id: {tower_id}");
         }
@@ -270,11 +271,12 @@ impl WTClient {
     /// Adds an invalid appointment to the tower record.
     pub fn add_invalid_appointment(&mut self, tower_id: TowerId, appointment: &Appointment) {
         if let Some(tower) = self.towers.get_mut(&tower_id) {
-            tower.invalid_appointments.insert(appointment.locator);
-
-            self.dbm
-                .store_invalid_appointment(tower_id, appointment)
-                .unwrap();
+            // The same revocation may be notified more than once. The appointment is only stored the first time.
+            if tower.invalid_appointments.insert(appointment.locator) {
+                self.dbm
+                    .store_invalid_appointment(tower_id, appointment)
+                    .unwrap();
+            }
         } else {
             log::error!("Cannot add invalid appointment to tower. Unknown tower_id: {tower_id}");
         }
